@@ -69,6 +69,9 @@ def c15 (op : String) (a : Array Json) : R (Option Json) := do
   | "c15_safeintp" =>
     let ts ← jList jTy (← arg a 1)
     pure (some (okJ (listJ (fun t => Json.bool (safeToIntp t)) ts)))
+  | "c15_storedty" =>
+    let fixed ← jBool (← arg a 1); let ts ← jList jTy (← arg a 2)
+    pure (some (okJ (listJ (fun t => tyJ (storedTy fixed t)) ts)))
   | "c15_range" =>
     let t ← jTy (← arg a 1)
     pure (some (okJ (listJ intJ [t.lo, t.hi])))
